@@ -196,6 +196,12 @@ def compare_doc(text, rec, ref, hs, by_type):
         lo, hi = max(x.start - 1, 0), min(x.end + 1, len(text))
         touches = any(ord(c) > 127 for c in text[lo:x.start] + text[x.end:hi])
         mb_neighbour = mb_neighbour or touches
+        if k not in H and any(ord(c) > 127 and c.isalnum() for c in str(x)):
+            # the candidate itself contains a non-ASCII letter/digit that a unicode-aware \w or \d of its
+            # pattern matched ('1999 N.Y.S.2d at 2004\U00010000'): Python's classes and Hyperscan's byte
+            # classes do not coincide on this text for this pattern - outside the property's domain
+            rec.count("candidate_outside_domain_skipped")
+            continue
         if k not in H:
             rec.violation("C14.missing_in_hyperscan", case,
                           observed=dict(token=M.ser_token(x), touches_multibyte=touches,
